@@ -184,7 +184,7 @@ fn sweep_cases(seed: u64, tier: &str, bins: &Binaries, scratch: Option<&str>) ->
         }
     }
     // (b) flag sweep: every single flag, every pair, thresholds 1..=4 x 1..=4, on the flag-sensitive inputs, every channel
-    let sens: Vec<&(String, Vec<String>)> = corpus.iter().filter(|(n, _)| n.starts_with("flag-sensitive") || n == "prefix-share").collect();
+    let sens: Vec<&(String, Vec<String>)> = corpus.iter().filter(|(n, _)| n.starts_with("flag-sensitive") || n == "prefix-share" || n.starts_with("flag-interactions")).collect();
     for cfg in flag_sweep_cfgs(thorough) {
         for (k, (name, lines)) in sens.iter().enumerate() {
             for (ci, ch) in CHANNELS.iter().enumerate() {
